@@ -159,6 +159,52 @@ func forgedMultiOffenders(rng *rand.Rand) []*Target {
 			add(kuekuID(tpl.ID, r), plantKuEku(base, r))
 		}
 	}
+	// ---- vocabulary for elem-vary: every element of every SEQUENCE-valued extension of the corpus, by extension and by the
+	// element's leading OID (a QcStatement, a PolicyInformation, an AccessDescription...) or else its tag (a GeneralName)
+	elemKey := func(n *forge.Node) string {
+		if n.Constructed() && len(n.Children) > 0 && n.Children[0].Tag() == 0x06 {
+			return "oid:" + forge.OIDString(n.Children[0].Content)
+		}
+		return fmt.Sprintf("tag:%02x", n.Tag())
+	}
+	elemVocab := map[string]map[string][][]byte{}
+	elemSeen := map[string]bool{}
+	for _, o := range c.Certs {
+		b, err := forge.ParseCert(o.DER)
+		if err != nil || b.Exts() == nil {
+			continue
+		}
+		for _, x := range b.Exts().Children {
+			v := forge.ExtValue(x)
+			if v == nil || v.Children != nil {
+				continue
+			}
+			seq, err := forge.Parse(v.Content)
+			if err != nil || seq.Tag() != 0x30 || len(seq.Children) == 0 {
+				continue
+			}
+			xo := forge.ExtOID(x)
+			for _, el := range seq.Children {
+				eb := el.Bytes()
+				if len(eb) > 600 || elemSeen[xo+string(eb)] {
+					continue
+				}
+				elemSeen[xo+string(eb)] = true
+				if elemVocab[xo] == nil {
+					elemVocab[xo] = map[string][][]byte{}
+				}
+				k := elemKey(el)
+				if len(elemVocab[xo][k]) < 12 {
+					elemVocab[xo][k] = append(elemVocab[xo][k], eb)
+				}
+			}
+		}
+	}
+	elemBudget := map[string]int{}
+	elemMax := 2
+	if tier == "thorough" {
+		elemMax = 10
+	}
 	// ---- the generic duplicate-and-vary recipes
 	stride := 6
 	full := os.Getenv("VERIF_MULTI_FULL") == "1" // every template, every attribute (C02: each input is linted once)
@@ -239,6 +285,62 @@ func forgedMultiOffenders(rng *rand.Rand) []*Target {
 					forge.AddAttr(cc.Subject(), forge.OID(2, 5, 4, 3), 0x0c, []byte(up))
 				}
 				add(fmt.Sprintf("forged:san-case%d:%s", rc.N, o.ID), cc.Bytes())
+			case "elem-vary":
+				// in every SEQUENCE-valued extension: each element gets rc.N siblings of its own kind (same leading OID / tag) with
+				// OTHER content, taken from the corpus vocabulary - the same statement, policy, access method... twice, differently.
+				// One certificate per extension (siblings behind the originals) and one with the siblings in front.
+				if base.Exts() == nil {
+					continue
+				}
+				for xi, x := range base.Exts().Children {
+					v := forge.ExtValue(x)
+					if v == nil || v.Children != nil {
+						continue
+					}
+					seq, err := forge.Parse(v.Content)
+					xo := forge.ExtOID(x)
+					if err != nil || seq.Tag() != 0x30 || len(seq.Children) == 0 || elemVocab[xo] == nil || xo == "2.5.29.17" {
+						continue
+					}
+					var extra []*forge.Node
+					for _, el := range seq.Children {
+						pool := elemVocab[xo][elemKey(el)]
+						added := 0
+						for pi := 0; pi < len(pool) && added < rc.N; pi++ {
+							cand := pool[(pi+ci)%len(pool)]
+							if string(cand) == string(el.Bytes()) {
+								continue
+							}
+							if n2, err := forge.Parse(cand); err == nil {
+								extra = append(extra, n2)
+								added++
+							}
+						}
+					}
+					if len(extra) == 0 {
+						continue
+					}
+					// budget: a few templates per (extension, kinds of its elements, n) class
+					cls := fmt.Sprintf("%s|%d", xo, rc.N)
+					for _, el := range seq.Children {
+						cls += "|" + elemKey(el)
+					}
+					if elemBudget[cls] >= elemMax {
+						continue
+					}
+					elemBudget[cls]++
+					for front := 0; front < 2; front++ {
+						cc := base.Clone()
+						s2 := seq.Clone()
+						if front == 1 {
+							s2.Children = append(append([]*forge.Node{}, extra...), s2.Children...)
+						} else {
+							s2.Children = append(s2.Children, extra...)
+						}
+						forge.ExtValue(cc.Exts().Children[xi]).Content = s2.Bytes()
+						add(fmt.Sprintf("forged:elem-vary%d:%s:ext%s:front%d", rc.N, o.ID, xo, front), cc.Bytes())
+					}
+				}
 			case "dup-ext":
 				exts := base.Exts()
 				if exts == nil || len(exts.Children) < rc.N {
